@@ -407,7 +407,20 @@ def finish(ctx, pid, P, known_bits=None, rule="", assumptions=None, extra=None, 
         samples += (s.meta.get("samples") or [])[:2]
         dist[s.name] = s.meta.get("distribution", {})
     shards = sum(s.shards for s in ctx.stages)
-    shards_ok = sum(s.shards_ok for s in ctx.stages)
+    # a shard's obligation "model = implementation and the specification holds on every case" is discharged
+    # when it has no failing case other than instances of OPEN known findings (reported separately)
+    open_bits = 0
+    for bit, fid in known_bits.items():
+        if known.get(fid, {}).get("status") == "open":
+            open_bits |= bit
+    shards_ok = 0
+    for st in ctx.stages:
+        size = st.meta.get("shard_size", 400) or 400
+        bad = set()
+        for idx, code, gi in st.failing:
+            if code & ~open_bits:
+                bad.add(gi // size)
+        shards_ok += max(0, st.shards - len(bad) - len([e for e in st.errors if e.startswith("coqc failed")]))
     nth = len(P.get("theorems", []))
     cov = dict(
         obligations=nth + shards,
@@ -437,6 +450,36 @@ def finish(ctx, pid, P, known_bits=None, rule="", assumptions=None, extra=None, 
     log("%s %s: theorems %d/%d closed, shards %d/%d clean, cases %d (nontrivial distinct %d), mismatches %d, violations %d, %.1fs" %
         (pid, ctx.tier, len(P.get("closed", [])), nth, shards_ok, shards, ev_total, dn, len(mismatches), nviol, time.time() - ctx.t0))
     return 1 if nviol else 0
+
+
+def coqchk_stage(pid):
+    """Thorough tier: re-check props/<pid>.vo and everything it depends on with the independent checker
+    and read its context summary (axioms, type-in-type, unsafe fixpoints, assumed positivity).
+    Cached per content of all .v files."""
+    h = hashlib.sha256()
+    for f in coq_sources():
+        h.update(f.encode())
+        h.update(open(f, "rb").read())
+    cdir = os.path.join(BUILD, "coqchk")
+    os.makedirs(cdir, exist_ok=True)
+    cf = os.path.join(cdir, "%s-%s.json" % (pid, h.hexdigest()[:20]))
+    if os.path.exists(cf):
+        return json.load(open(cf))
+    with Lock("coqchk"):
+        rc, out, dt = run(["coqchk", "-silent", "-o", "-Q", ".", "AV", "AV.props.%s" % pid], cwd=COQ, timeout=3000)
+    def field(name):
+        m = re.search(r"\* %s:\s*(.*?)\n\s*\n" % re.escape(name), out, flags=re.S)
+        return re.sub(r"\s+", " ", m.group(1)).strip() if m else "?"
+    res = dict(rc=rc, wall_s=round(dt, 1), axioms=field("Axioms"),
+               type_in_type=field("Constants/Inductives relying on type-in-type"),
+               unsafe_fixpoints=field("Constants/Inductives relying on unsafe (co)fixpoints"),
+               assumed_positivity=field("Inductives whose positivity is assumed"))
+    res["ok"] = rc == 0 and all(res[k] == "<none>" for k in ("axioms", "type_in_type", "unsafe_fixpoints", "assumed_positivity"))
+    if rc == 0:
+        json.dump(res, open(cf, "w"))
+    else:
+        res["log"] = out[-2000:]
+    return res
 
 
 def proof_stage(pid, extra_targets=None):
